@@ -4,11 +4,11 @@
 package main
 
 import (
-	"golang.org/x/net/bpf"
 	"crypto/sha256"
 	"encoding/json"
 	"flag"
 	"fmt"
+	"golang.org/x/net/bpf"
 	"math/rand"
 	"os"
 	"path/filepath"
